@@ -212,7 +212,7 @@ impl Prop for C15 {
                     out.nontrivial.push(rng::hash_combine(rng::hash_str(&input), c_in as u64));
                 }
             }
-            if k == 0 && idx < 2 {
+            if out.sample.is_none() && idx < 32 {
                 out.sample = Some(json!({"generator": kind, "config": cfg.short(), "input": short(&input, 160), "cursors in": cursors.iter().take(12).collect::<Vec<_>>(), "cursors out": obs.cursors.iter().take(12).collect::<Vec<_>>()}));
             }
         }
